@@ -12,9 +12,28 @@ for d in sorted(glob.glob(os.path.join(HERE, 'benign', 'C*-*'))):
         txt = [l.strip() for l in open(p).read().split('\n') if l.strip() and not l.startswith('#')]
         notes = (txt[0] if txt else '')[:220].replace('|', '/')
     files = sorted(set(re.findall(r'^\+\+\+ b/(\S+)', open(os.path.join(d, 'patch.diff')).read(), re.M))) if os.path.exists(os.path.join(d, 'patch.diff')) else []
+    def verdict_of(t, pid):
+        last = [l for l in t.split('\n') if l.startswith(pid + ':')]
+        und = [l for l in t.split('\n') if l.startswith('UNDECIDED')]
+        if 'VIOLATION' in t or re.search(r'\b[1-9]\d* refuted', last[-1] if last else ''):
+            return 'FALSE ALARM (exit 1)'
+        if und or 'Traceback' in t:
+            return 'undecided (exit 2): ' + (und[0][:160].replace('|', '/') if und else 'internal error')
+        if last and ' 0 refuted' in last[-1] and ' 0 undecided' in last[-1]:
+            return 'green'
+        return '?'
     for lg in sorted(glob.glob(os.path.join(d, 'check_*.log'))):
+        if lg.endswith('.first.log'):
+            continue
         pid = re.search(r'check_(\w+)\.log', lg).group(1)
         t = open(lg).read()
+        first = lg[:-4] + '.first.log'
+        if os.path.exists(first):
+            f2 = os.path.join(d, f'final_{pid}.txt')
+            note = open(f2).read().strip() if os.path.exists(f2) else ''
+            now = verdict_of(t, pid)
+            rows.append((name, ', '.join(files), notes, pid, verdict_of(open(first).read(), pid), now + (f' ({note})' if note and now == 'green' else '')))
+            continue
         last = [l for l in t.split('\n') if l.startswith(pid + ':')]
         und = [l for l in t.split('\n') if l.startswith('UNDECIDED')]
         viol = 'VIOLATION' in t or re.search(r'\b[1-9]\d* refuted', last[-1] if last else '')
